@@ -1,18 +1,26 @@
 #!/bin/bash
-# tools/mutant_matrix.sh: every seeded change against the check of its own property (and related ones); quick tier.
+# tools/mutant_matrix.sh [pattern]: every seeded change (optionally only those matching the glob pattern) against the
+# check of its own property and related ones; quick tier; writes seeded/MATRIX.txt.  Patches /repo in place: run
+# nothing else against /repo meanwhile.
 cd /verif
+PAT="${1:-C*-*}"
 OUT=/verif/seeded/MATRIX.txt
-: > $OUT
+touch $OUT
 declare -A EXTRA
-EXTRA[C01]="C12 C11"; EXTRA[C03]="C01 C11"; EXTRA[C11]="C01 C12"; EXTRA[C12]="C01"; EXTRA[C17]="C04"; EXTRA[C04]="C17"; EXTRA[C14]="C05"
-for d in seeded/C*-*; do
+EXTRA[C01]="C12 C11 C15"; EXTRA[C03]="C01 C11 C17"; EXTRA[C11]="C01 C12 C15"; EXTRA[C12]="C01 C15"; EXTRA[C17]="C04"
+EXTRA[C04]="C17 C11"; EXTRA[C14]="C05"; EXTRA[C02]="C06 C10"; EXTRA[C08]="C16"
+for d in seeded/$PAT; do
+  [ -f "$d/patch.diff" ] || continue
   m=$(basename $d); prop=${m%%-*}
+  grep -v "^$m " $OUT > /tmp/matrix_keep.txt; cp /tmp/matrix_keep.txt $OUT
   for chk in $prop ${EXTRA[$prop]}; do
     grep -q "\"property_id\": \"$chk\"" MANIFEST.json || continue
-    r=$(tools/try_mutant.sh $d/patch.diff $chk 2>&1 | tail -1)
+    r=$(timeout 1800 tools/try_mutant.sh $d/patch.diff $chk 2>&1 | tail -1)
+    git -C /repo checkout -- . 2>/dev/null
     v=$(grep -cE "^VIOLATION" /tmp/try_mutant.out)
     i=$(grep -cE "^INCONCLUSIVE" /tmp/try_mutant.out)
     sig=$(grep -E "^  [a-zA-Z]" /tmp/try_mutant.out | head -1 | cut -c3-90)
     echo "$m $chk violations=$v inconclusive=$i $r | $sig" | tee -a $OUT
   done
 done
+sort -o $OUT $OUT
